@@ -26,12 +26,13 @@ def build(reg):
     reg.call_hooks.append(hook)
     m = reg.module("gcmpy/joint_degree/joint_degree.py")
     m.cls("JointDegree", fields={"_jdd": JDD, "_motif_sizes": ListT(INT)})
-    m.fn("JointDegree.normalise_jdd", requires={"nonzero_total": "msum(self._jdd) != 0"},
-         exit_hints={"scaled": "scaled(self._jdd, old(self._jdd), msum(old(self._jdd)))"},
+    m.fn("JointDegree.normalise_jdd", raises={"ZeroDivisionError": dict(when="msum(self._jdd) == 0")},
+         exit_hints={"divided": "implies(len(KEYS) > 0, msum(old(self._jdd)) != 0)", "nonempty": "implies(exists_elem(k, JD, k in old(self._jdd)), len(KEYS) > 0)",
+                     "scaled": "implies(len(KEYS) > 0, scaled(self._jdd, old(self._jdd), msum(old(self._jdd))))"},
          ensures={"keys_unchanged": "keyset_eq(self._jdd, old(self._jdd))",
                   "each_divided_by_old_total": "forall_elem(k, JD, implies(k in self._jdd, self._jdd[k] == old(self._jdd)[k] / msum(old(self._jdd))))",
-                  "sums_to_one": "msum(self._jdd) == 1", "sizes_unchanged": "self._motif_sizes == old(self._motif_sizes)"},
-         loops={0: dict(inv={"total": "summation == msum(DICT0) and summation != 0 and DICT0 == old(self._jdd)",
+                  "sums_to_one": "implies(exists_elem(k, JD, k in old(self._jdd)), msum(self._jdd) == 1)", "sizes_unchanged": "self._motif_sizes == old(self._motif_sizes)"},
+         loops={0: dict(inv={"total": "summation == msum(DICT0) and DICT0 == old(self._jdd)", "divided_so_far": "implies(IT > 0, summation != 0)",
                              "done": "forall(j, 0, IT, self._jdd[KEYS[j]] == DICT0[KEYS[j]] / summation)",
                              "todo": "forall(j, IT, len(KEYS), self._jdd[KEYS[j]] == DICT0[KEYS[j]])",
                              "sizes": "self._motif_sizes == old(self._motif_sizes)"})})
